@@ -20,6 +20,7 @@ func init() {
 	vrt.Register("C03_template_api", TemplateAPI)
 	vrt.Register("C03_histories", Histories)
 	vrt.Register("C03_near_valid", NearValid)
+	vrt.Register("C03_deep_nesting", DeepNesting)
 }
 
 var framings = [][2]string{
@@ -220,4 +221,42 @@ func NearValid() {
 		toks = edit(toks, 8) // a second edit from the bracket / comma subset
 	}
 	total(strings.Join(toks, " "))
+}
+
+// ---- deep nesting: d nested blocks (if / for / fn / a helper call with a block,
+// or a mix), closed or cut off. Parsing must stay cheap: work that doubles per
+// level is a hang at depth 32 for a template of a few hundred bytes. The fuel of
+// a path is the unwinding bound: exhausting it is reported as a hang candidate
+// and replayed natively under a deadline.
+var openers = []string{
+	"<%= if (a) { %>",
+	"<%= for (v) in xs { %>",
+	"<% let f = fn(x) { %>",
+	"<%= h() { %>",
+	"<% if (a) { %>x<% } else { %>",
+}
+
+func DeepNesting() {
+	depths := []int{4, 12, 24, 40}
+	d := depths[vrt.Choice(len(depths))]
+	kind := vrt.Choice(len(openers) + 1) // the last one: a mix
+	closed := vrt.Choice(2) == 1
+	var sb strings.Builder
+	for i := 0; i < d; i++ {
+		k := kind
+		if kind == len(openers) {
+			k = i % len(openers)
+		}
+		sb.WriteString(openers[k])
+		if vrt.Tier() > 0 || i%8 == 0 {
+			sb.WriteString("<%# c %>t")
+		}
+	}
+	sb.WriteString("z")
+	if closed {
+		for i := 0; i < d; i++ {
+			sb.WriteString("<% } %>")
+		}
+	}
+	total(sb.String())
 }
